@@ -59,6 +59,10 @@ var c13Ext = []extVariant{
 	{"permessage-deflate; unknown_param", false, false, false, false},
 	{"permessage-deflate; server_no_context_takeover; server_no_context_takeover", true, true, false, true},
 	{"permessage-deflate; server_max_window_bits=99", true, true, false, false},
+	// parameters after a server_max_window_bits value count as well
+	{"permessage-deflate; server_max_window_bits=12; unknown_param", false, false, false, false},
+	{"permessage-deflate; server_max_window_bits=15; client_no_context_takeover", true, false, true, false},
+	{"permessage-deflate; server_max_window_bits=10; client_max_window_bits=10", false, false, false, false},
 	// several header lines (separated by \n here): every line counts
 	{"permessage-deflate\nx-custom-mux", false, false, false, false},
 	{"permessage-deflate\npermessage-deflate; client_max_window_bits=8", false, false, false, false},
@@ -366,11 +370,18 @@ func runC13(r *Run) {
 		pingErr, echoErr error
 		sub              string
 	}
+	noDeadline := fault == 0 && !clientTimeout && t.Pct(50)
+	r.D("no_deadline", noDeadline)
 	var results []dialRes
 	r.S.Go("dialer", func() {
 		for i := 0; i < attempts; i++ {
 			r.S.Park("a.dialer")
 			ctx, cancel := context.WithTimeout(context.Background(), 10*time.Second)
+			if noDeadline {
+				// a caller without any deadline: a response Dial refuses must still end
+				// the call (the refused response's body may never end)
+				ctx, cancel = context.WithCancel(context.Background())
+			}
 			start := r.S.Now()
 			o := opts
 			if i > 0 && varyOpts {
